@@ -13,8 +13,8 @@ static double nv_mean_error(const struct nv_tensor2d* e, const struct nv_indices
 { return s->id == 1 ? nv_train_value : nv_valid_value; }
 static void nv_tensor2d_assign(struct nv_tensor2d* d, const struct nv_tensor2d* s) { *d = *s; }
 
-#define NV_ACCEPTED (NV_SAME(self->m_value, nv_valid_value) && self->m_round == wlearners->size && self->m_values.id == errors_losses->id && self->m_values.rows == errors_losses->rows && self->m_values.cols == errors_losses->cols && self->m_values.by == errors_losses->by)
-#define NV_UNCHANGED (NV_SAME(self->m_value, __CPROVER_old(self->m_value)) && self->m_round == __CPROVER_old(self->m_round) && self->m_values.id == __CPROVER_old(self->m_values.id) && self->m_values.rows == __CPROVER_old(self->m_values.rows) && self->m_values.cols == __CPROVER_old(self->m_values.cols) && self->m_values.by == __CPROVER_old(self->m_values.by))
+#define NV_ACCEPTED (NV_IDENT(self->m_value, nv_valid_value) && self->m_round == wlearners->size && self->m_values.id == errors_losses->id && self->m_values.rows == errors_losses->rows && self->m_values.cols == errors_losses->cols && self->m_values.by == errors_losses->by)
+#define NV_UNCHANGED (NV_IDENT(self->m_value, __CPROVER_old(self->m_value)) && self->m_round == __CPROVER_old(self->m_round) && self->m_values.id == __CPROVER_old(self->m_values.id) && self->m_values.rows == __CPROVER_old(self->m_values.rows) && self->m_values.cols == __CPROVER_old(self->m_values.cols) && self->m_values.by == __CPROVER_old(self->m_values.by))
 #define NV_IMPROVED (nv_valid_value < NV_FSUB(__CPROVER_old(self->m_value), epsilon) || valid_samples->n == 0)
 #define NV_WAIT (wlearners->size < __CPROVER_old(self->m_round) + patience)
 
